@@ -9,7 +9,7 @@ CHECKS = {
     "C12": dict(
         engine="E1-config-lattice",
         technique="bounded-exhaustive enumeration of (map class x index assignment x parameter alphabet x input lattice) with complex-step / full-matrix-probing oracles",
-        text="Every registered feature-map class under every injective index assignment and the whole parameter alphabet, every class pair sharing raw inputs, and every (slmode x normaliser mix) list are enumerated; derivative routines are compared with complex-step derivatives of the value routines for every raw input, and forward/reverse normaliser passes are compared as full Jacobian matrices (transpose clause).",
+        text="Every registered feature-map class under every index assignment (coincident indices included where the slots share a domain) and the whole parameter alphabet (densities from below the 1e-10 floor of the semilocal-aware maps to 40), every class pair sharing raw inputs, and every (slmode x normaliser mix) list are enumerated; derivative routines are compared with complex-step derivatives of the value routines for every raw input, and forward/reverse normaliser passes are compared as full Jacobian matrices (transpose clause).",
         note="Decides the property on the enumerated alphabets (gamma in {0.3,1,2.7}, two scale/center pairs, input lattices inside the admissible domain); trusts numpy complex arithmetic.",
         design="5/C12",
     ),
@@ -18,7 +18,7 @@ CHECKS = {
 CHECKS["C01"] = dict(
     engine="E1-config-lattice",
     technique="bounded-exhaustive configuration lattice (deviation bound iterated) x complete symmetric-direction basis, Richardson directional derivatives of the real integrator",
-    text="Every state of the enumerated configuration lattice (molecule, feature family, semilocal mode, spin, plan, interpolator, evaluators, spin mode, baselines, mixing, normalisation, grid, density matrix) is run through the real CiderNumInt.nr_rks/nr_uks on C libraries compiled from the working tree; tr(vmat E_ij) is compared with the Richardson-extrapolated derivative of excsum for ALL symmetric basis directions per spin (a complete basis, so vmat = grad E is decided for the state), plus symmetry of vmat and nelec against PySCF's own eval_rho.",
+    text="Every state of the enumerated configuration lattice (molecule, feature family, semilocal mode, spin, plan, interpolator, evaluators, spin mode, baselines, mixing, normalisation, grid, density matrix) is run through the real CiderNumInt.nr_rks/nr_uks on C libraries compiled from the working tree; tr(vmat E_ij) is compared with the Richardson-extrapolated derivative of excsum for ALL symmetric basis directions per spin (a complete basis, so vmat = grad E is decided for the state), plus symmetry of vmat and nelec against PySCF's own eval_rho. The base molecule has generally contracted shells (NCTR = 2); a d-shell molecule is included for the SDMX families; a candidate failure is re-decided with a third finite-difference step; for models whose multiplicative baseline is not density weighted ('ONE') grid points with density below 1e-6 carry zero weight (fixed mask).",
     note="Bounded to molecules with nao<=7, positive-definite density matrices, deviation bound 1 (quick) / 2 (thorough) plus full products of the family/spin/mode/evaluator sub-lattices; finite-difference noise 1e-9 vs threshold 2e-7.",
     design="5/C01",
 )
@@ -34,14 +34,14 @@ CHECKS["C07"] = dict(
     engine="E1-config-lattice",
     technique="edge relations on the nspin edge of the configuration lattice, end to end and layer by layer, on the real integrators/generators/plans",
     text="For every enumerated configuration (full products family x semilocal mode x spin mode, spin mode x evaluator x baseline, spin mode x baseline x mixing; deviations<=1 otherwise) the three spin relations (closed shell, label swap, separable splitting) are evaluated between the nr_rks and nr_uks realisations, for energy, both potential matrices and nelec; the same relations are evaluated at each layer that carries an nspin factor (semilocal plan incl. its potential, exponent functions and their derivatives, NLDF generators for all versions/plans/rho_mult incl. the reverse pass, SDMX generators, native and libxc model evaluators).",
-    note="Tolerance 2e-11 relative (measured 4e-15); models whose multiplicative baseline is not density weighted ('ONE') are compared at 1e-7 because the 1e-16 regularisers of s^2/alpha at rho<1e-6 are not spin-scaling invariant by construction.",
+    note="Tolerance 1e-8 relative (measured <= 1.3e-9 over seeds 0-3, 7 and the thorough lattice: the 1e-16 regularisers of s^2/alpha are not spin-scaling invariant and show in the diffuse tail of the base molecule), 2e-8 for libxc-backed baselines (libxc applies its density threshold per spin), 1e-7 for the not density-weighted 'ONE' baseline (evaluated with the fixed tail mask of C01).",
     design="5/C07",
 )
 
 CHECKS["C05"] = dict(
     engine="E1-config-lattice",
     technique="complete-basis (full matrix) probing of every forward/backward routine pair of the real C/Python code over enumerated layouts, offsets/strides and thread counts",
-    text="For every operator pair of the nonlocal pipeline (angular grid <-> spherical harmonics, radial grid <-> orbital basis for input and output bases, convolution multiply for j/i/ij/k collections, spline projections incl. the l=1 fills, grid interpolation incl. l+1 terms for both interpolator back ends, coefficient transforms for both plans and both coefficient orders, the composed forward/backward convolution, SDMX orbital contraction and shell-to-alpha l=1 contraction) and every enumerated layout, the forward routine is applied to every unit vector of its domain and the backward routine to every unit vector of its codomain; the two full matrices must be transposes entrywise, A(0)=0, additivity, and nothing outside the addressed offset/stride block is written.",
+    text="For every operator pair of the nonlocal pipeline (angular grid <-> spherical harmonics, radial grid <-> orbital basis for input and output bases, convolution multiply for j/i/ij/k collections, spline projections incl. the l=1 fills, grid interpolation incl. l+1 terms for both interpolator back ends, coefficient transforms for both plans and both coefficient orders, the composed forward/backward convolution, SDMX orbital contraction and shell-to-alpha l=1 contraction) and every enumerated layout, the forward routine is applied to every unit vector of its domain and the backward routine to every unit vector of its codomain; the two full matrices must be transposes entrywise, A(0)=0, additivity, and nothing outside the addressed offset/stride block is written. Large layouts (3 x 5810 and 2 x 3470 point atoms, so that one radial shell holds thousands of points): all unit vectors of the small input space through the forward routine, the backward routine on 34-40 block-indicator / boundary / dense probe vectors.",
     note="Layouts bounded (natm<=3, lmax<=3, <=8 shells, nalpha<=6); tolerance 64 eps ||A|| sqrt(dim); thread counts 1-3 under libgomp (schedules are C10).",
     design="5/C05",
 )
@@ -49,28 +49,28 @@ CHECKS["C05"] = dict(
 CHECKS["C10"] = dict(
     engine="E3-vgomp-schedules",
     technique="stateless deviation-bounded schedule exploration (CHESS-style) of the real C/OpenMP code under a controllable GOMP runtime; TSan race candidates promoted to scheduling points",
-    text="Every Python-reachable OpenMP entry point of the C back end is closed with a small driver and run on C code compiled from the working tree against vgomp, a GOMP-ABI runtime in which exactly one team member runs at a time: every schedule with at most d deviations from the canonical schedule (region start, barriers, each dynamic chunk hand-out, single, critical, thread exit; d=1 quick, 2 thorough; teams 2 and 3) is executed and its outputs compared bitwise with the team-of-one run, with deadlock and work-sharing invariants checked by the runtime; team sizes 1..16 under five canonical policies incl. end-to-end nr_rks/nr_uks; real libgomp at several thread counts x repetitions; and a separate free-running ThreadSanitizer pass whose reports in repository code become extra scheduling points explored the same way (a race is a violation iff some explored schedule changes an output).",
+    text="Every Python-reachable OpenMP entry point of the C back end is closed with a small driver and run on C code compiled from the working tree against vgomp, a GOMP-ABI runtime in which exactly one team member runs at a time: every schedule with at most d deviations from the canonical schedule (region start, barriers, each dynamic chunk hand-out, single, critical, thread exit; d=1 always to completion; in the thorough tier d=2 under a 60 s budget per body, completion reported per body; teams 2 and 3) is executed and its outputs compared bitwise with the team-of-one run, with deadlock and work-sharing invariants checked by the runtime; team sizes 1..16 under five canonical policies incl. end-to-end nr_rks/nr_uks; real libgomp at several thread counts x repetitions; and a separate free-running ThreadSanitizer pass (members start together, chunks handed out fairly, work-share bookkeeping invisible to the detector) whose reports in repository code become extra scheduling points, one before and one after each racing access, explored the same way on the attributed body and on a priority list of bodies that execute the racing code, pruned two-atom grids first (a race is a violation iff some explored schedule changes an output).",
     note="Synchronisation-granularity interleavings plus racing accesses, sequential consistency; nr_numint.c, pbc_tools.c and GPAW-only/caller-less routines are not driven (the evidence lists every OpenMP region function and whether it was entered).",
     design="5/C10, 3.4, appendix A",
 )
 CHECKS["C14"] = dict(
     engine="E2-history-bfs",
     technique="explicit-state BFS over save/load format chains on the real classes and files, canonical state = dict-form/evaluation hash; enumerated negative alphabet",
-    text="From initial objects enumerating every registered feature-map class x parameter alphabet, the serialisable evaluator, eight whole-model compositions (MappedXC/MappedXC2, all spin modes, several evaluator kinds, two kernels) and RHF/UHF analyzers, every chain of save/load formats up to depth 3 (dict, FeatureList dict/YAML, evaluator dict/YAML, model YAML/joblib with inferred and explicit format, analyzer HDF5/dict) is executed on real files; after every cycle the type and the bit-identical evaluation (value and derivative) are checked and the dict form must be a fixed point. Every unknown code, missing key, unsupported extension/format and non-model file must raise.",
+    text="From initial objects enumerating every registered feature-map class x parameter alphabet, the serialisable evaluator, eight whole-model compositions (MappedXC/MappedXC2, all spin modes, several evaluator kinds, two kernels) and RHF/UHF analyzers, every chain of save/load formats up to depth 3 (dict, FeatureList dict/YAML, evaluator dict/YAML, model YAML/joblib with inferred and explicit format, analyzer HDF5/dict) is executed on real files; every file cycle first writes and loads a DIFFERENT object at the same path (overwrite after load); after every cycle the type and the bit-identical evaluation (value and derivative) are checked and the dict form must be a fixed point. Every unknown code, missing key, unsupported extension/format and non-model file must raise.",
     note="Files written by this version only; an object whose save routine raises counts as 'format unsupported for this object'.",
     design="5/C14",
 )
 CHECKS["C19"] = dict(
     engine="E2-history-bfs",
     technique="explicit-state BFS over build/prune/reset/reconfigure histories of the real CiderGrids object, canonical state = settings + grid hash, invariants in every state",
-    text="For each molecule (repeated and unique elements) and lmax, histories of build(sort, non0tab), repeated prune_by_density_ at several thresholds, reset and setting changes are explored breadth first to depth 3 on one real CiderGrids object while the same history is applied to a pyscf Grids reference; in every distinct state the point/weight multisets must be bitwise equal, the index map injective and consistent with weights, owning atoms, radial shells and direction tables, padding weights zero, tables monotone/consistent, and the per-shell real spherical harmonics orthonormal under the shell quadrature up to the supported degree and zero above.",
-    note="Default radial scheme/Becke partition; lmax in {4,6,10}; full_lmax passed explicitly.",
+    text="For each molecule (repeated and unique elements, an element re-occurring after another one, a third-period element) and lmax in {4, 6, 10, 12}, histories of build(sort, non0tab), repeated prune_by_density_ at several thresholds, reset and setting changes (level, sizes, per-element sizes, pruning scheme, alignment) are explored breadth first to depth 3 on one real CiderGrids object while the same history is applied to a pyscf Grids reference; in every distinct state the point/weight multisets must be bitwise equal, the index map injective and consistent with weights, owning atoms, radial shells and direction tables, padding weights zero, tables monotone/consistent, and the per-shell real spherical harmonics orthonormal under the shell quadrature up to the supported degree and zero above.",
+    note="Default radial scheme/Becke partition; full_lmax passed explicitly.",
     design="5/C19",
 )
 CHECKS["C20"] = dict(
     engine="E1-config-lattice+E4-vfftw",
     technique="exhaustive plan enumeration with complete input bases against numpy.fft, on libfft_wrapper built against an executable FFTW model with address checking (model validated against numpy)",
-    text="Every plan over dims of rank 1-3 from {1..4} (thorough {1..5}) plus rank-4 tuples x forward/backward x c2c/r2c x in/out of place x batch first/last x 1-3 transforms is built through the real FFTWrapper; plans with <=64 inputs are probed with every unit vector (c2r: images of all real unit vectors), others with a dense vector and edge unit vectors; outputs must equal numpy's unnormalised DFT, shapes as advertised, forward.backward = N.identity, wrong shapes raise, equivalent input representations (Fortran order, other dtypes) give the same transform, and the FFTW model's address checker and red zones stay silent. The model is validated against numpy on explicit-embed/stride plans and shown to fire on an undersized buffer.",
+    text="Every plan over dims of rank 1-3 from {1..4} (thorough {1..5}) plus rank-4 tuples x forward/backward x c2c/r2c x in/out of place x batch first/last x 1-3 transforms is built through the real FFTWrapper; plans with <=64 inputs are probed with every unit vector (c2r: images of all real unit vectors), others with a dense vector and edge unit vectors; outputs must equal numpy's unnormalised DFT, shapes as advertised, forward.backward = N.identity, wrong shapes raise, two calls on one plan keep the first result intact and the caller's input unchanged, an earlier output fed back as input is transformed correctly, equivalent input representations (Fortran order, other dtypes) give the same transform, and the FFTW model's address checker and red zones stay silent. The model is validated against numpy on explicit-embed/stride plans and shown to fire on an undersized buffer.",
     note="FFTW replaced by vfftw (documented semantics of the advanced interface); the real FFTW/MKL binaries are not in the image.",
     design="5/C20, 3.5, appendix B",
 )
@@ -86,7 +86,7 @@ CHECKS["C09"] = dict(
 CHECKS["C18"] = dict(
     engine="E1-config-lattice",
     technique="exhaustive enumeration of feature-family combinations and of a single-fault invalid-argument alphabet; every accepted C entry point executed on an AddressSanitizer build under the controlled OpenMP runtime",
-    text="(i) The full product of semilocal mode x NLDF class (9) x fractional-Laplacian class (4) x SDMX class (7) x rho_mult is constructed and nfeat, get_feat_loc, the scaling-power list, the UEG vector and the recommended-normaliser list are compared for length, plus with normalisers assigned; for every family x mode x spin the counts are compared with what the semilocal plan, the NLDF generator (forward and reverse) and the SDMX generator actually return. (ii) For each constructor/wrapper a single-fault alphabet (249 invalid argument values: unknown strings, wrong lengths and types, zero/negative parameters, lambda<=1, index pairs out of range, wrong-shaped / non-contiguous / wrong-dtype arrays, size mismatches, exponent above alpha_max, lmax misuse) must raise. (iii) Every harness body of C10 plus stride/offset variants, end-to-end integrator calls and FFT plans run on the -fsanitize=address build at team sizes 1 and 3; any ASan report or crash is a violation.",
+    text="(i) The full product of semilocal mode x NLDF class (9) x fractional-Laplacian class (4) x SDMX class (7) x rho_mult is constructed and nfeat, get_feat_loc, the scaling-power list, the UEG vector and the recommended-normaliser list are compared for length, plus with normalisers assigned; for every family x mode x spin the counts are compared with what the semilocal plan, the NLDF generator (forward and reverse) and the SDMX generator actually return. (ii) For each constructor/wrapper a single-fault alphabet (249 invalid argument values: unknown strings, wrong lengths and types, zero/negative parameters, lambda<=1, index pairs out of range, wrong-shaped / non-contiguous / wrong-dtype arrays, size mismatches, exponent above alpha_max, lmax misuse) must raise; for the index-pair arguments of NLDFSettingsVI / VIJ / FracLaplSettings every pair in {-2..3}^2 is tried for every combination of independently varied list lengths (accepted iff both indexes address an existing vector spec). (iii) Every harness body of C10 plus stride/offset variants, end-to-end integrator calls, plan bodies with a dense spline table and accepted out-of-ladder exponents, and FFT plans run on the -fsanitize=address build at team sizes 1 and 3; any ASan report or crash is a violation.",
     note="Single faults only; ASan sees out-of-bounds accesses of the instrumented libraries, not uninitialised reads; NotImplementedError from get_reasonable_normalizer counts as 'not available'.",
     design="5/C18",
 )
@@ -117,7 +117,7 @@ CHECKS["C13"] = dict(
 CHECKS["C15"] = dict(
     engine="E1-config-lattice",
     technique="enumeration of kernel expression trees (leaf class x hyper-parameter alphabet x binary/unary compositions) with symmetry, diag, PSD, composition-algebra, spin-exchange and Richardson-gradient oracles",
-    text="Every kernel class of models/kernels.py (RBF iso/aniso/fixed, antisymmetric RBF, linear, polynomial orders 1-4 with and without factorial and anisotropic gamma, additive RBF orders 1-3 incl. fixed scale/length scale, ARBF-V2, additive linear-times-RBF, additive rational quadratic, partial/single/quadratic variants, constant, white and density-noise kernels, subset kernels with list/slice/stepped indices, spin-symmetrised kernels) with hyper-parameters at low/mid/high values is enumerated as a leaf, in every + and x composition of a basic pool (all leaves in thorough; depth 3 there), under integer powers, constants, linear transforms, active-dimension and spin-symmetrising wrappers; each tree must satisfy k(X,Y)=k(Y,X)^T, diag=diag k(X,X), positive semi-definiteness, the algebra of its composition, spin-block exchange symmetry, theta-gradients equal to Richardson differences in log-theta with exactly the non-fixed parameters on the last axis, and k_and_deriv equal to differences in X.",
+    text="Every kernel class of models/kernels.py (RBF iso/aniso/fixed, antisymmetric RBF, linear, polynomial orders 1-4 with and without factorial and anisotropic gamma, additive kernels of orders 1-4 incl. fixed scale/length scale, ARBF-V2, additive linear-times-RBF, additive rational quadratic, partial/single/quadratic variants, constant, white and density-noise kernels, subset kernels with list/slice/stepped indices, spin-symmetrised kernels) with hyper-parameters at low/mid/high values is enumerated as a leaf, in every + and x composition of a basic pool (all leaves in thorough; depth 3 there), under integer powers, constants, linear transforms, active-dimension and spin-symmetrising wrappers; each tree must satisfy k(X,Y)=k(Y,X)^T, diag=diag k(X,X), positive semi-definiteness, the algebra of its composition, spin-block exchange symmetry, theta-gradients equal to Richardson differences in log-theta with exactly the non-fixed parameters on the last axis, k_and_deriv equal to differences in X, the caller's sample arrays unchanged after every evaluation, and k(X, X) with the same array on both sides equal to k(X); the linear transform wrapper is enumerated in every presence pattern of its optional arguments. DFT-level kernel (dft_kernel.DFTKernel): for SEP / NPOL / POL x nspin x four component kernels x control-point reduction on/off, get_kctrl, get_k and get_k_and_deriv against an own evaluation of the documented definition (polarised kernel k_aa k_bb + k_ab k_ba) and Richardson differences.",
     note="Fixed sample matrices with coincident and far-apart rows; trees to depth 2 (quick) / 3 (thorough). Four legacy-class defects are listed in known_findings.json.",
     design="5/C15",
 )
@@ -125,7 +125,7 @@ CHECKS["C15"] = dict(
 CHECKS["C11"] = dict(
     engine="E1-config-lattice",
     technique="enumeration of mappable kernel classes x index subsets/slices x hyper-parameter and control-point sets, real mapping routines vs the Python kernel sum on a lattice of interior, edge and corner points",
-    text="For every mappable kernel class (RBF, constant x RBF, subset RBF with list / closed / open / stepped / start-less slices, antisymmetric RBF built by the package's own helper, spin kernel, KernelEvaluator over RBF / additive / polynomial / composite kernels, linear; spline mapping of subset RBF in 1-3 dimensions and of additive RBF, additive rational-quadratic and additive linear-times-RBF kernels of orders 1-3, alone and multiplied by a subset RBF) the evaluator produced by the real constructors / get_mapped_gp_evaluator_* is compared with sum_a k(x, x_a) alpha_a and its gradient: 1e-11 / 2e-8 for the exact evaluators; for spline-mapped models the value and gradient errors at grid densities 4, 8, 16 must shrink (>= 3x resp. >= 1.5x per doubling) and stay below measured bounds at the default density. get_k0_for_mapping of each additive kernel is compared with the factor its own evaluation uses, for three length scales.",
+    text="For every mappable kernel class (RBF, constant x RBF, subset RBF with list / closed / open / stepped / start-less slices, antisymmetric RBF built by the package's own helper, spin kernel, KernelEvaluator over RBF / additive / polynomial / composite kernels, linear; spline mapping of subset RBF in 1-3 dimensions and of additive RBF, additive rational-quadratic and additive linear-times-RBF kernels of orders 1-3, alone and multiplied by a subset RBF) the evaluator produced by the real constructors / get_mapped_gp_evaluator_* is compared with sum_a k(x, x_a) alpha_a and its gradient: 1e-11 / 2e-8 for the exact evaluators; for spline-mapped models the value and gradient errors at grid densities 4, 8, 16 must shrink (>= 2x per doubling and >= 8x over two doublings for values, >= 1.5x for gradients) and stay below measured bounds at the default density; index layouts of the two factors (ascending, subset index after the additive ones, unsorted, interleaved) and a feature list whose features have different bounds are enumerated. get_k0_for_mapping of each additive kernel is compared with the factor its own evaluation uses, for three length scales.",
     note="Evaluation inside the feature bounds only; seeded control points; spline thresholds from measurement.",
     design="5/C11",
 )
@@ -141,7 +141,7 @@ CHECKS["C17"] = dict(
 CHECKS["C16"] = dict(
     engine="E2-history-bfs",
     technique="exhaustive enumeration of add_reactions / reset_reactions / fit histories on the real MOLGP (all orders x all consecutive splits x reset variants) against dense extended-precision linear algebra",
-    text="Four synthetic training systems (restricted and spin-polarised, with occupation-derivative data) are written as real HDF5 training files and read by the real store_mol_covs; for five kernel configurations (separable exchange kernel with and without pivoted-Cholesky control-point reduction, non-polarised exchange, exchange + correlation-type kernel, polarised kernel) every order of a four-reaction list (plain energy, exchange-only, stoichiometric with unit/noise_factor/weight, orbital-derivative entry), every split of the list into consecutive add_reactions calls and reset / partial-reset variants is executed, and after fit() the labels, noises, per-kernel weights (Kmm^-1 Kmn (K+Sigma)^-1 y with iterative refinement in long double), the training residual (= Sigma applied to the solved reaction weights), order equivariance, the rescaled fit(x) system and compute_likelihood(x) (Gaussian log marginal likelihood) are compared; the per-system covariance, baseline and occupation-derivative integrals are compared with direct grid sums incl. the low-density mask and with Richardson differences.",
+    text="Four synthetic training systems (restricted and spin-polarised, with occupation-derivative data) are written as real HDF5 training files and read by the real store_mol_covs; for five kernel configurations (separable exchange kernel with and without pivoted-Cholesky control-point reduction, non-polarised exchange, exchange + correlation-type kernel, polarised kernel) every order of a four-reaction list (plain energy, exchange-only, stoichiometric with unit/noise_factor/weight and a system listed twice, orbital-derivative entry listed twice), every split of the list into consecutive add_reactions calls and reset / partial-reset variants is executed, and after fit() the labels, noises, per-kernel weights (Kmm^-1 Kmn (K+Sigma)^-1 y with iterative refinement in long double), the training residual (= Sigma applied to the solved reaction weights), order equivariance, the rescaled fit(x) system and compute_likelihood(x) (Gaussian log marginal likelihood) are compared; the per-system covariance, baseline and occupation-derivative integrals are compared with direct grid sums incl. the low-density mask and with Richardson differences.",
     note="Noises >= 0.02 so that the implementation's 1e-9 jitter is below the 1e-5 tolerance; hyper-parameter optimisation not covered.",
     design="5/C16",
 )
@@ -149,7 +149,7 @@ CHECKS["C16"] = dict(
 CHECKS["C02"] = dict(
     engine="E1-config-lattice",
     technique="enumeration of spec family x level x rho_mult x plan x ladder x interpolator x nspin states; fast paths at three refinement levels vs brute-force quadrature of the documented integrals on evaluation-point-centred Becke grids; path-to-path edge relations",
-    text="For every allowed spec of versions j, i (scalar and vector, every dot incl. the density gradient), ij and k, at GGA and meta-GGA level, with rho_mult one/expnt, Gaussian and spline plans, etb/zexp ladders, the three interpolator back ends and nspin 1/2 (deviations<=1 plus the full products family x plan x interpolator and family x level x rho_mult; everything in thorough), the features returned by the real generator at ~28 grid points spanning densities above 1e-3 are compared with a brute-force quadrature of the documented integral (own transcription of the kernels and of the exponent formula) on a level-3 Becke grid with an extra centre at the evaluation point; the discrepancy at the finest of three refinement levels must be within min(max(2 x last refinement step, 4e-3), 2e-2) of the feature scale and not be the worst of the three; states that differ only in plan, ladder or interpolator must agree to 8e-3. SDMX: the fast module must equal the reference-grade module to 1e-8 and the documented H_j^0, H_j^0d, H_j^1 integrals of the density matrix (times -1/4) to 2e-2 (measured 3e-5 for j=0,1 and <=6e-3 for j=2).",
+    text="For every allowed spec of versions j, i (scalar and vector, every dot incl. the density gradient), ij and k, at GGA and meta-GGA level, with rho_mult one/expnt, Gaussian and spline plans, etb/zexp ladders, the three interpolator back ends and nspin 1/2 (deviations<=1 plus the full products family x plan x interpolator and family x level x rho_mult; everything in thorough), the features returned by the real generator at ~28 grid points spanning densities above 1e-3 are compared with a brute-force quadrature of the documented integral (own transcription of the kernels and of the exponent formula) on a level-3 Becke grid with an extra centre at the evaluation point; the discrepancy at the finest of three refinement levels must be within min(max(2 x last refinement step, 4e-3), 2e-2) of the feature scale and not be the worst of the three; states that differ only in the interpolation back end must agree to 1e-3 (measured 1.4e-5), states that differ in plan type or ladder to 2e-2; the spin-polarised path is enumerated at both levels and both rho_mult options for the ij and k families. SDMX: the fast module must equal the reference-grade module to 1e-8 and the documented H_j^0, H_j^0d, H_j^1 integrals of the density matrix (times -1/4) to 2e-2 (measured 3e-5 for j=0,1 and <=6e-3 for j=2).",
     note="Definition transcribed from the documentation is trusted; points with density < 1e-3 are outside the claim; the size of the truncation error itself is not claimed, only that it is controllable and converges to the documented integral.",
     design="5/C02",
 )
